@@ -538,7 +538,7 @@ fn hostile_files(seed: u64, idx: u64, work: &Path, rep: &mut Report) {
         put_u64(&mut b, 0, v);
         files.push(("sig", format!("block_size={v}"), b));
     }
-    for v in [0u64, 1 << 32, 1 << 63, u64::MAX] {
+    for v in [0u64, 1 << 32, 1 << 63, u64::MAX, (1 << 20) + 1, 1 << 26, 1 << 30] {
         let mut b = sigb.clone();
         put_u64(&mut b, 8, v);
         files.push(("sig", format!("file_size={v}"), b));
@@ -585,7 +585,7 @@ fn hostile_files(seed: u64, idx: u64, work: &Path, rep: &mut Report) {
         b[0..4].copy_from_slice(&v.to_le_bytes());
         files.push(("delta", format!("block_size={v}"), b));
     }
-    for v in [0u64, 1 << 32, 1 << 63, u64::MAX] {
+    for v in [0u64, 1 << 32, 1 << 63, u64::MAX, (1 << 20) + 1, 1 << 26, 1 << 30] {
         for (name, at) in [("source_size", 4usize), ("basis_size", 12), ("op_count", 20)] {
             let mut b = delb.clone();
             put_u64(&mut b, at, v);
